@@ -24,7 +24,7 @@ func init() {
 		Title: "Decoded packets own their memory and packets do not interfere",
 		Level: "model_checking",
 		Rule: "explicit enumeration of operation histories over a pool of up to three real packets and one reusable read buffer: decode frame f (one rich frame per type, 16 incl. type 0) through ReadPacket from the buffer, or through UnmarshalBinary(buf[hdr:n]) on the type's zero value or on a value made by the type's constructor, or into packet #0 or #1 of the pool when it has the frame's type (a packet reused as decode destination); forward (a new packet of the same type made by the constructor, every string and byte-slice field copied over with SetX(p.X()), joins the pool); scribble (overwrite the buffer with ff); encode packet i; String+Dump packet i; call one of four setters/adders on packet i. " +
-			"All sequences of length <=3 (quick) / <=4 (thorough). Invariants in the state reached by every sequence: (1) the full observation (accessors, String, re-encoding) of every packet not targeted by the last operation equals the snapshot taken when it was last targeted; (2) a freshly decoded packet equals the reference decode of the same frame in a pristine process (history independence); (3) whenever the deep digest of the package-level variables differs from its initial value, packets freshly built with the constructors must still encode and render exactly as in a pristine process; (4) alias analysis of the concrete object graphs: no mutable memory region shared between two pool packets or between a packet and the caller's buffer. " +
+			"All sequences of length <=3 over the whole alphabet (both tiers); thorough adds all sequences of length 4 over the core alphabet (primary frames and the PUBLISH alternatives, no zero-value unmarshal). Invariants in the state reached by every sequence: (1) the full observation (accessors, String, re-encoding) of every packet not targeted by the last operation equals the snapshot taken when it was last targeted; (2) a freshly decoded packet equals the reference decode of the same frame in a pristine process (history independence); (3) whenever the deep digest of the package-level variables differs from its initial value, packets freshly built with the constructors must still encode and render exactly as in a pristine process; (4) alias analysis of the concrete object graphs: no mutable memory region shared between two pool packets or between a packet and the caller's buffer. " +
 			"Cache pressure: for 9 packet types, N in {40,300,1200} (thorough also 5000, 70000) frames with pairwise distinct contents in every string slot are decoded in turn, again in the same order and again in reverse; every decode must carry the values the specification decoder reads from the same bytes. " +
 			"states = sequences executed (each replayed on fresh objects), transitions = operations executed; distinct_nontrivial = distinct sequences containing at least one decode followed by another operation.",
 		Assumptions: []string{
@@ -633,6 +633,22 @@ func runC14Pool(x *core.Ctx) {
 		x.Note("no globals list (plain build): invariant (3) not evaluated")
 		x.R.Exhaustive = false
 	}
+	// the fourth step of the thorough tier uses the core alphabet: decodes
+	// of the sixteen primary frames and the PUBLISH/SUBSCRIBE/CONNACK
+	// alternatives, no zero-value unmarshal (the constructor-made target
+	// subsumes it), everything else
+	core4 := map[int]bool{}
+	for i, o := range ops {
+		switch o.Kind {
+		case 'u':
+		case 'r', 'n':
+			if o.Frame < 16 || pf.types[o.Frame] == 3 {
+				core4[i] = true
+			}
+		default:
+			core4[i] = true
+		}
+	}
 	seq := make([]int, 0, depth)
 	var rec func() bool
 	rec = func() bool {
@@ -671,6 +687,16 @@ func runC14Pool(x *core.Ctx) {
 			}
 		}
 		for oi := range ops {
+			if len(seq) == 3 {
+				// four-step sequences run inside the core alphabet
+				in := core4[oi]
+				for _, pi := range seq {
+					in = in && core4[pi]
+				}
+				if !in {
+					continue
+				}
+			}
 			if len(seq) == 1 {
 				if !x.Mine() {
 					continue
